@@ -294,6 +294,10 @@ def run(facts, tier):
     # ---------------- T13.4 one character decoder for positions in text strings
     rules.append(rule_char_decoder(facts, "T13.4").finish())
 
+    # ---------------- T13.5 @json writes strings as bytes (shared with C07 T7.6)
+    from c07 import rule_byte_writers
+    rules.append(rule_byte_writers(facts, "T13.5").finish())
+
     explanation = ("Inversion of codecs for all strings, character offsets of matches and safety against real consumers are value-level: not decided. Decided: the constant escape tables and the bindings of the "
                    "format filters to their codecs, extracted from the typed HIR (and the one-line jq definitions).")
     return finish("C13", "other", rules, t0, tier, explanation, ["aho-corasick replaces leftmost non-overlapping matches", "urlencoding and base64 crates implement their codecs"])
